@@ -29,6 +29,8 @@ type Ctx struct {
 	Notes   []string
 	Assume  []string
 	Explain string
+	Fixture *Program // positive-control package (checker/fixture), loaded on demand
+	FixDir  string
 	Suffix  string // appended to the construct (e.g. "@386" for the 32-bit pass of the thorough tier)
 	byKey   map[string]*Obligation
 }
@@ -61,6 +63,19 @@ func (c *Ctx) add(status, rule, construct, pos, detail string, n int) *Obligatio
 	c.Obls = append(c.Obls, o)
 	c.Evals += n
 	return o
+}
+
+// fixture returns the positive-control program (nil if it cannot be loaded).
+func (c *Ctx) fixture() *Program {
+	if c.Fixture == nil && c.FixDir != "" {
+		p, err := loadFixture(c.FixDir)
+		if err == nil {
+			c.Fixture = p
+		} else {
+			c.Notes = append(c.Notes, "fixture load failed: "+err.Error())
+		}
+	}
+	return c.Fixture
 }
 
 func (c *Ctx) ok(rule, construct, pos, detail string, n int) {
